@@ -50,11 +50,72 @@ pub fn main(args: &[String]) -> i32 {
         Some("replay-inner") => replay_inner(args),
         Some("digest") => digest(args),
         Some("show") => show(args),
+        Some("slice") => slice(args),
+        Some("emit") => emit(args),
         _ => {
             eprintln!("usage: cachesim check|worker|replay|digest|show ...");
             2
         }
     }
+}
+
+/// `cachesim slice --prop P --from A --to B`: in-process execution of a slice of runs without any
+/// child process or file output — the entry point used under Miri and AddressSanitizer, which act
+/// as alternative deterministic executors of the same seeds. Prints "RUN <i>" before each run so
+/// that an abort of the tool can be pinned to a run index.
+fn slice(args: &[String]) -> i32 {
+    let prop = arg(args, "--prop").unwrap_or("C03");
+    let seed = arg_u64(args, "--seed").unwrap_or(1);
+    let from = arg_u64(args, "--from").unwrap_or(0);
+    let to = arg_u64(args, "--to").unwrap_or(10);
+    let max_events = arg_u64(args, "--max-events").unwrap_or(u64::MAX) as usize;
+    let tier = tier_of(args);
+    let mut bad = 0;
+    let mut execs = 0u64;
+    for i in from..to {
+        let mut t = gen::gen(prop, seed, i, tier);
+        t.events.truncate(max_events);
+        eprintln!("RUN {}", i);
+        let r = run_case(&t);
+        execs += r.executions;
+        for (v, _) in &r.violations {
+            if v.prop == prop {
+                println!("SLICE-VIOLATION run={} property={} oracle={} step={} op={} :: {}", i, v.prop, v.oracle, v.step, v.op, v.detail);
+                bad += 1;
+            }
+        }
+    }
+    println!("SLICE-DONE prop={} from={} to={} executions={} violations={}", prop, from, to, execs, bad);
+    if bad > 0 {
+        1
+    } else {
+        0
+    }
+}
+
+/// `cachesim emit --prop P --index I --executor miri --out FILE`: writes the replay file of a run
+fn emit(args: &[String]) -> i32 {
+    let prop = arg(args, "--prop").unwrap_or("C03");
+    let seed = arg_u64(args, "--seed").unwrap_or(1);
+    let idx = arg_u64(args, "--index").unwrap_or(0);
+    let max_events = arg_u64(args, "--max-events").unwrap_or(u64::MAX) as usize;
+    let mut t = gen::gen(prop, seed, idx, tier_of(args));
+    t.events.truncate(max_events);
+    let mut v = t.to_json();
+    v["expect"] = json!({
+        "property": prop, "oracle": arg(args, "--oracle").unwrap_or("executor_abort"), "op": "?", "step": -1,
+        "class": "crash", "executor": arg(args, "--executor").unwrap_or("native"),
+        "detail": arg(args, "--detail").unwrap_or(""), "orig_run_index": idx, "orig_events": t.events.len(),
+    });
+    match arg(args, "--out") {
+        Some(p) => {
+            if std::fs::write(p, serde_json::to_string_pretty(&v).unwrap()).is_err() {
+                return 2;
+            }
+        }
+        None => println!("{}", serde_json::to_string_pretty(&v).unwrap()),
+    }
+    0
 }
 
 fn show(args: &[String]) -> i32 {
@@ -93,6 +154,20 @@ fn digest(args: &[String]) -> i32 {
     }
     println!("digest {} {} {}..{} {:016x}", prop, seed, from, to, d);
     0
+}
+
+#[cfg(cachesim_asan)]
+extern "C" {
+    fn __lsan_do_recoverable_leak_check() -> i32;
+}
+/// AddressSanitizer builds: ask LeakSanitizer whether anything leaked so far
+fn lsan_leak() -> bool {
+    #[cfg(cachesim_asan)]
+    {
+        return unsafe { __lsan_do_recoverable_leak_check() } != 0;
+    }
+    #[allow(unreachable_code)]
+    false
 }
 
 struct Found {
@@ -155,6 +230,27 @@ fn worker(args: &[String]) -> i32 {
         }
         if let Some(e) = r.harness_error {
             harness_errors.push(format!("run {}: {}", i, e));
+        }
+        if prop != "C18" && lsan_leak() {
+            let v = Violation {
+                prop: prop.clone(),
+                oracle: "lsan_leak".into(),
+                step: -1,
+                op: "?".into(),
+                detail: "LeakSanitizer reports heap memory that is no longer reachable after this run".into(),
+            };
+            let fp = v.fingerprint();
+            let n = fingerprints.entry(fp).or_insert(0);
+            *n += 1;
+            if *n == 1 {
+                found.push(Found {
+                    v,
+                    trace: t.clone(),
+                    orig_index: i,
+                    shrink_tests: 0,
+                    orig_events: t.events.len(),
+                });
+            }
         }
         if samples.len() < 3 && t.events.len() >= 3 && t.events.len() <= 14 && r.violations.is_empty() {
             samples.push(t.to_json());
@@ -228,6 +324,7 @@ fn write_replay(dir: &str, prop: &str, v: &Value) -> String {
     t["expect"] = json!({
         "property": v["property"], "oracle": v["oracle"], "op": v["op"], "step": v["step"],
         "class": v.get("class").cloned().unwrap_or(json!("oracle")),
+        "executor": std::env::var("CACHESIM_EXECUTOR").unwrap_or_else(|_| "native".into()),
         "detail": v["detail"],
         "orig_run_index": v["orig_run_index"], "orig_events": v["orig_events"],
     });
